@@ -386,11 +386,6 @@ func init() {
 		cr2 := wire.ParseClientResponse(wire.GRPCWeb, ex.Rec.Status, ex.Rec.HeadHeaders(), ex.Rec.BodyBytes.Bytes(), ex.Rec.Trailers)
 		desc := fmt.Sprintf("method %s (rule %s %s body=%q), message %s", method, rule.http, rule.tmpl, rule.body, js)
 		if mid == nil || !cr2.OK() {
-			if strings.Contains(cr2.End.Message, "cannot be URL encoded") || strings.Contains(cr2.End.Message, "expected field") {
-				c.Outcome("not-representable")
-				c.Note("not-representable")
-				return // a message the rule cannot carry fails visibly (accepted)
-			}
 			c.Fail("C07.rest-conversion-failed", "%s\n client outcome: code %s %q", desc, wire.CodeName(cr2.End.Code), cr2.End.Message)
 			return
 		}
